@@ -230,6 +230,9 @@ func (p *Program) FuncID(f *ssa.Function) string {
 			ptr = "*"
 		}
 		tn := types.TypeString(rt, func(*types.Package) string { return "" })
+		if n, ok := rt.(*types.Named); ok {
+			tn = n.Obj().Name() // without type arguments: the instance suffix of the method name carries them
+		}
 		return fmt.Sprintf("%s.(%s%s).%s", rel, ptr, tn, name)
 	}
 	return rel + "." + name
